@@ -80,7 +80,7 @@ def run(ctx):
     for cfg, tcfg in cfgs:
         tp = os.path.join(ctx.scratch, "trace-%s.ndjson" % cfg)
         args = ["-mode", "xf", "-cfg", cfg, "-unsynced-tail", "-trace", tp, "-dir", os.path.join(ctx.scratch, "fz-" + cfg),
-                "-n", ctx.pick(2, 8), "-steps", ctx.pick(9, 14), "-images", ctx.pick(5, 8)]
+                "-n", ctx.pick(2, 6), "-steps", ctx.pick(9, 14), "-images", ctx.pick(5, 8)]
         if ctx.thorough:
             args.append("-every-length")
         if cfg == "g2" or (ctx.thorough and cfg == "mixed"):
